@@ -77,27 +77,36 @@ impl Publish {
     pub(crate) fn packet_header_size(
         src: &BytesMut,
         packet_flags: u8,
+        remaining_length: u32,
     ) -> Result<Option<u32>, DecodeError> {
+        // packet-id len
+        let qos = QoS::try_from((packet_flags & 0b0110) >> 1)?;
+        let pid_len = if qos == QoS::AtMostOnce { 0 } else { 2 }; // len of u16
+
+        // topic, packet-id and properties length must fit into the frame
+        ensure!(remaining_length > 2 + pid_len, DecodeError::InvalidLength);
+
         if src.remaining() < 2 {
             return Ok(None);
         }
 
         // topic len
-        let mut len = u32::from(u16::from_be_bytes([src[0], src[1]])) + 2;
-
-        // packet-id len
-        let qos = QoS::try_from((packet_flags & 0b0110) >> 1)?;
-        if qos != QoS::AtMostOnce {
-            len += 2; // len of u16
-        }
+        let len = u32::from(u16::from_be_bytes([src[0], src[1]])) + 2 + pid_len;
+        ensure!(len < remaining_length, DecodeError::InvalidLength);
         if src.remaining() < len as usize {
             return Ok(None);
         }
 
-        // properties len
-        if let Some((prop_len, pos)) = utils::decode_variable_length(&src[len as usize..])? {
+        // properties len, it can not cross the frame boundary
+        let end = std::cmp::min(src.len(), remaining_length as usize);
+        if let Some((prop_len, pos)) = utils::decode_variable_length(&src[len as usize..end])? {
+            ensure!(
+                prop_len <= remaining_length - len - pos as u32,
+                DecodeError::InvalidLength
+            );
             Ok(Some(len + prop_len + pos as u32))
         } else {
+            ensure!(src.len() < remaining_length as usize, DecodeError::InvalidLength);
             Ok(None)
         }
     }
